@@ -154,6 +154,31 @@ let handle (f : string array) : string =
                     (tls10MAC_run h recs) in
        (match crash outs with Some c -> c | None -> "ok " ^ String.concat "," outs)
      | Err _ -> "err" | Panic -> "PANIC" | Hang -> "HANG")
+  | "U" ->
+    (* several live objects: each slot holds its own model state (sm3.New and x509.SM3.New give a fresh object) *)
+    let tbl : (int, sM3) Hashtbl.t = Hashtbl.create 4 in
+    let outs = List.map (fun o ->
+      match String.split_on_char ':' o with
+      | hd :: rest ->
+        let c = hd.[0] and i = int_of_string (String.sub hd 1 (String.length hd - 1)) in
+        if c = 'N' then (Hashtbl.replace tbl i init; "n") else begin
+          let s = Hashtbl.find tbl i in
+          let opv = (match c, rest with
+            | 'W', [h] -> OpWrite (bytes_of_hex h)
+            | 'S', [_; h] -> OpSum (bytes_of_hex h)
+            | 'R', [] -> OpReset
+            | _ -> failwith "bad op") in
+          let (s', out) = step s opv in
+          Hashtbl.replace tbl i s'; show_out out
+        end
+      | [] -> failwith "bad op") (split_list f.(2)) in
+    (match crash outs with Some c -> c | None -> "ok " ^ String.concat "," outs)
+  | "V" ->
+    (match hmac_oneshot (bytes_of_hex f.(2)) (bytes_of_hex f.(3)) with
+     | Ok b -> "ok " ^ hexn b | Err _ -> "err" | Panic -> "PANIC" | Hang -> "HANG")
+  | "Q" ->
+    (match pbkdf2_Key (bytes_of_hex f.(2)) (bytes_of_hex f.(3)) (nat_of_int (int_of_string f.(4))) (nat_of_int (int_of_string f.(5))) with
+     | Ok b -> "ok " ^ (if b = [] then "-" else hexn b) | Err _ -> "err" | Panic -> "PANIC" | Hang -> "HANG")
   | "H" ->
     let outs = run_history step init f.(2) in
     (match crash outs with Some c -> c | None -> "ok " ^ String.concat "," outs)
